@@ -148,6 +148,10 @@ Section CtlProofs.
       injection H as <- <-. apply (ctl_inv_update st t s); try assumption; [reflexivity|].
       apply ctl_find_some in Ef. destruct Ef as [Ef _]. rewrite Forall_forall in H3. specialize (H3 _ Ef).
       unfold ctl_sess_ok in *. cbn. now rewrite H3, Ep.
+    - (* GiveUp *)
+      destruct (ctl_find t (st_sess st)) as [s|] eqn:Ef; [|discriminate].
+      destruct (ss_pc s) eqn:Ep; try discriminate.
+      injection H as <- <-. apply (ctl_inv_update st t s); try assumption; reflexivity.
     - (* Client *)
       destruct (ctl_parse_sid (cm_sid cm)) as [t|]; [|injection H as <- <-; exact Hinv].
       unfold ctl_lookup in H. destruct (ctl_find t (st_sess st)) as [s|] eqn:Ef; [|injection H as <- <-; exact Hinv].
@@ -224,29 +228,25 @@ Section CtlProofs.
   Qed.
 
   (* ---- quiescence ---- *)
-  (* in a state where no HandleVisitor invocation can take a step, every session still in the table belongs to an
-     invocation blocked in the hand-over of the sid to an owner whose receiving goroutine is gone *)
-  Lemma ctl_quiescent_sessions st :
-    ctl_inv st -> ctl_quiescent st = true ->
-    forall s, In s (st_sess st) -> ss_in_table s = true ->
-    ss_pc s = PcNotify /\ ctl_zin (ss_chan s) (st_alive st) = false.
+  (* in a state where no HandleVisitor invocation can take a step, the session table is empty *)
+  Lemma ctl_sessions_empty_at_quiescence st :
+    ctl_inv st -> ctl_quiescent st = true -> ctl_table st = [].
   Proof.
-    intros [_ [_ [H3 _]]] Hq s Hin Ht. unfold ctl_quiescent in Hq. rewrite forallb_forall in Hq. specialize (Hq _ Hin).
-    rewrite Forall_forall in H3. specialize (H3 _ Hin). unfold ctl_sess_ok in H3. rewrite Ht in H3.
-    unfold ctl_sess_enabled in Hq. destruct (ss_pc s); cbn in *; try discriminate.
-    split; [reflexivity|]. now destruct (ctl_zin (ss_chan s) (st_alive st)).
-  Qed.
-
-  Lemma ctl_sessions_empty_at_quiescence_partial st :
-    ctl_inv st -> ctl_quiescent st = true ->
-    (forall s, In s (st_sess st) -> ss_pc s = PcNotify -> ctl_zin (ss_chan s) (st_alive st) = true) ->
-    ctl_table st = [].
-  Proof.
-    intros Hinv Hq Halive. unfold ctl_table.
-    destruct (filter ss_in_table (st_sess st)) as [|s r] eqn:E; [reflexivity|].
+    intros [_ [_ [H3 _]]] Hq. unfold ctl_table.
+    destruct (filter ss_in_table (st_sess st)) as [|s r] eqn:E; [reflexivity|]. exfalso.
     assert (Hs : In s (filter ss_in_table (st_sess st))) by (rewrite E; now left).
     apply filter_In in Hs. destruct Hs as [Hin Ht].
-    destruct (ctl_quiescent_sessions st Hinv Hq s Hin Ht) as [Hp Hd]. rewrite (Halive s Hin Hp) in Hd. discriminate.
+    unfold ctl_quiescent in Hq. rewrite forallb_forall in Hq. specialize (Hq _ Hin).
+    rewrite Forall_forall in H3. specialize (H3 _ Hin). unfold ctl_sess_ok in H3. rewrite Ht in H3.
+    unfold ctl_sess_enabled in Hq. destruct (ss_pc s); cbn in *; discriminate.
+  Qed.
+
+  (* and as long as a session is in the table some step of its HandleVisitor invocation is enabled (no wedge) *)
+  Lemma ctl_in_table_enabled st s :
+    ctl_inv st -> In s (st_sess st) -> ss_in_table s = true -> ctl_sess_enabled st s = true.
+  Proof.
+    intros [_ [_ [H3 _]]] Hin Ht. rewrite Forall_forall in H3. specialize (H3 _ Hin). unfold ctl_sess_ok in H3.
+    rewrite Ht in H3. unfold ctl_sess_enabled. destruct (ss_pc s); cbn in *; try reflexivity; discriminate.
   Qed.
 
   (* ---- the two responses of a session go to the visitor's control and to the control that sent the latest
